@@ -130,4 +130,95 @@ theorem head_ok (m : Nat) (w : Width) (v : Nat) (hm : m < 8) (hw : w.fits v) :
   · cases w <;> simp [Width.ai, Width.fits, Width.bound] at * <;> omega
   · exact be_ok _ _ b hb
 
+
+/-! ## Syntax of well-formed encodings (RFC 8949 §3) and the values they denote -/
+
+/-- One definite-length chunk of an indefinite-length string: head width and content. -/
+abbrev Chunk := Width × Bytes
+
+/-- Every way RFC 8949 allows a data item to be written.  Maps are kept as the flat list
+    key₁, value₁, key₂, value₂, … (well-formed when the length is even). -/
+inductive Item where
+  | uint (w : Width) (n : Nat)
+  | nint (w : Width) (n : Nat)                 -- denotes  -1 - n
+  | bstr (w : Width) (bs : Bytes)
+  | bstrI (chunks : List Chunk)
+  | tstr (w : Width) (bs : Bytes)
+  | tstrI (chunks : List Chunk)
+  | arr (w : Width) (items : List Item)
+  | arrI (items : List Item)
+  | map (w : Width) (items : List Item)
+  | mapI (items : List Item)
+  | tag (w : Width) (n : Nat) (content : Item)
+  | simple (n : Nat)                           -- e0+n, n < 24  (false 20, true 21, null 22, undefined 23)
+  | simple1 (n : Nat)                          -- f8 nn, 32 ≤ n < 256
+  | f16 (bits : Nat)
+  | f32 (bits : Nat)
+  | f64 (bits : Nat)
+  deriving Repr, Inhabited
+
+def encChunk (m : Nat) (c : Chunk) : Bytes := head m c.1 c.2.length ++ c.2
+def encChunks (m : Nat) : List Chunk → Bytes
+  | [] => []
+  | c :: cs => encChunk m c ++ encChunks m cs
+
+mutual
+/-- the bytes of an encoding -/
+def Item.enc : Item → Bytes
+  | .uint w n => head mUint w n
+  | .nint w n => head mNint w n
+  | .bstr w bs => head mBstr w bs.length ++ bs
+  | .bstrI cs => indefHead mBstr ++ encChunks mBstr cs ++ [breakByte]
+  | .tstr w bs => head mTstr w bs.length ++ bs
+  | .tstrI cs => indefHead mTstr ++ encChunks mTstr cs ++ [breakByte]
+  | .arr w items => head mArr w items.length ++ Item.encList items
+  | .arrI items => indefHead mArr ++ Item.encList items ++ [breakByte]
+  | .map w items => head mMap w (items.length / 2) ++ Item.encList items
+  | .mapI items => indefHead mMap ++ Item.encList items ++ [breakByte]
+  | .tag w n c => head mTag w n ++ c.enc
+  | .simple n => [mSimple * 32 + n]
+  | .simple1 n => [mSimple * 32 + 24, n]
+  | .f16 b => (mSimple * 32 + 25) :: be 2 b
+  | .f32 b => (mSimple * 32 + 26) :: be 4 b
+  | .f64 b => (mSimple * 32 + 27) :: be 8 b
+def Item.encList : List Item → Bytes
+  | [] => []
+  | i :: is => i.enc ++ Item.encList is
+end
+
+def chunkWF (c : Chunk) : Prop := c.1.fits c.2.length ∧ bytesOk c.2
+def chunksWF : List Chunk → Prop
+  | [] => True
+  | c :: cs => chunkWF c ∧ chunksWF cs
+
+mutual
+/-- well-formedness: arguments fit their head width, counts fit 64 bits, maps have key/value
+    pairs, two-byte simple values are ≥ 32, payload bytes are bytes -/
+def Item.WF : Item → Prop
+  | .uint w n => w.fits n
+  | .nint w n => w.fits n
+  | .bstr w bs => w.fits bs.length ∧ bytesOk bs
+  | .bstrI cs => chunksWF cs
+  | .tstr w bs => w.fits bs.length ∧ bytesOk bs
+  | .tstrI cs => chunksWF cs
+  | .arr w items => w.fits items.length ∧ Item.WFList items
+  | .arrI items => Item.WFList items
+  | .map w items => w.fits (items.length / 2) ∧ items.length % 2 = 0 ∧ Item.WFList items
+  | .mapI items => items.length % 2 = 0 ∧ Item.WFList items
+  | .tag w n c => w.fits n ∧ c.WF
+  | .simple n => n < 24
+  | .simple1 n => 32 ≤ n ∧ n < 256
+  | .f16 b => b < 2 ^ 16
+  | .f32 b => b < 2 ^ 32
+  | .f64 b => b < 2 ^ 64
+def Item.WFList : List Item → Prop
+  | [] => True
+  | i :: is => i.WF ∧ Item.WFList is
+end
+
+/-- content of a chunked string = concatenation of the chunks -/
+def chunksVal : List Chunk → Bytes
+  | [] => []
+  | c :: cs => c.2 ++ chunksVal cs
+
 end CdnsVerif.Spec.Cbor
